@@ -335,10 +335,73 @@ def t_initial_style(E):
     out = I.call(params["impl"], list(args), dict(params))
     E.prove("C36.initial_style_bind.impl_evaluates_the_wrapped_function",
             I.to_u(out) == ev(I.to_u(inner.debug_info), I.to_u(consts), I.to_u(flat_args)))
+    # an interpreter re-binds the primitive with the values ITS environment holds for the operands (not the tracers seen at
+    # staging time): the impl must evaluate the staged function on the operands it is HANDED, constants included
+    consts2 = [E.opaque("rebound_lit0", "array"), E.opaque("rebound_lit1", "array")]
+    args2 = [E.opaque("rebound_flat0", "array")]
+    out2 = I.call(params["impl"], consts2 + args2, dict(params))
+    E.prove("C36.initial_style_bind.impl_uses_the_operands_it_is_handed_constants_included",
+            I.to_u(out2) == ev(I.to_u(inner.debug_info), I.to_u(consts2), I.to_u(args2)))
     E.prove("C36.initial_style_bind.result_is_unflattened_with_the_output_tree",
             I.to_u(res) == E.ctx.fn("tree_unflatten", U, U, U)(out_tree_v.t, I.to_u(seen["outs"])))
     E.prove("C36.initial_style_bind.user_parameters_are_forwarded", "extra" in params)
     E.refutable("initial_style.bind", I.to_u(out) == ev(I.to_u(inner.debug_info), I.to_u(flat_args), I.to_u(consts)))
+
+
+@task("staging.stage", props=["C36", "C09"], functions=[STAGING + ":stage", STAGING + ":get_shaped_aval", STAGING + ":cached_stage_dynamic"])
+def t_stage(E):
+    """stage(f)(*args, **kwargs): the function is traced to a jaxpr AT JAX'S OWN ABSTRACT VALUES of the flattened arguments
+    (jax.core.get_aval: shape, dtype and weak type - so that dtype promotion inside the staged program is the one ordinary
+    evaluation performs), the closed jaxpr carries the constants the trace produced, and the flat arguments / input tree /
+    output tree are returned for the interpreters (assumption A11 covers trace_to_jaxpr_dynamic itself)"""
+    I = E.I
+    seen = {}
+    f = E.opaque("f", "callable")
+    x0, x1 = E.opaque("arg0"), E.opaque("arg1")
+    flat = [E.opaque("leaf0", "array"), E.opaque("leaf1", "array"), E.opaque("leaf2", "array")]
+    in_tree, out_tree = E.opaque("in_tree"), E.opaque("out_tree")
+    aval = E.ctx.fn("jax_get_aval", U, U)
+    I.ext["jax.core.get_aval"] = lambda I_, x: UVal(aval(I_.to_u(x)), "aval")
+    I.ext["jax.api_util.debug_info"] = lambda I_, *a, **k: E.opaque("debug_info")
+
+    def wrap_init(I_, fn, params=None, debug_info=None):
+        seen["wrapped"], seen["params"] = fn, params
+        return E.opaque("wrapped_fun")
+    I.ext["jax.extend.linear_util.wrap_init"] = wrap_init
+    I.ext["jax.extend.linear_util.cache"] = lambda I_, fn: fn
+
+    def tree_flatten(I_, tree):
+        seen["flattened"] = tree
+        return (list(flat), in_tree)
+    I.ext["jax.tree_util.tree_flatten"] = tree_flatten
+
+    def flatten_fun(I_, fun, tree):
+        seen["flat_fun_of"] = (fun, tree)
+        return (E.opaque("flat_fun"), out_tree)
+    I.overrides[STAGING + ":_flatten_fun_nokwargs"] = flatten_fun
+    jaxpr_u, consts_u = E.opaque("traced_jaxpr"), E.opaque("traced_consts")
+
+    def trace(I_, flat_fun, in_avals):
+        seen["avals"] = in_avals
+        seen["traced"] = flat_fun
+        return (jaxpr_u, E.opaque("out_avals"), consts_u)
+    I.ext["jax.interpreters.partial_eval.trace_to_jaxpr_dynamic"] = trace
+    I.ext["jax.extend.core.ClosedJaxpr"] = lambda I_, jp, cs: Rec(jaxpr=jp, consts=cs, literals=cs)
+    staged = E.call(STAGING + ":stage", f)
+    res = I.call(staged, [x0, x1], {"flag": True})
+    E.require("C36.stage.traces_the_function_once", "avals" in seen and "wrapped" in seen and "flattened" in seen)
+    E.prove("C36.stage.traces_the_given_function_with_its_keyword_arguments", seen["wrapped"] is f and seen["params"] == {"flag": True})
+    E.prove("C36.stage.flattens_the_positional_arguments", tuple(seen["flattened"]) == (x0, x1))
+    avs = list(I.iterate(seen["avals"]))
+    E.require("C36.stage.one_abstract_value_per_flat_argument", len(avs) == len(flat))
+    E.prove("C36.stage.arguments_are_traced_at_jax_own_abstract_values_weak_types_included",
+            E.z3.And([I.to_u(a) == aval(x.t) for a, x in zip(avs, flat)]), also=["C09"])
+    typed, (fa, it_, ot_) = res
+    E.prove("C36.stage.closed_jaxpr_is_the_trace_with_its_constants", E.And(
+        isinstance(typed, Rec), I.to_u(typed.jaxpr) == jaxpr_u.t, I.to_u(typed.consts) == consts_u.t))
+    E.prove("C36.stage.returns_flat_arguments_and_trees", E.And(
+        E.eq(list(fa), flat), I.to_u(it_) == in_tree.t, I.to_u(ot_) == out_tree.t))
+    E.refutable("staging.stage", I.to_u(avs[0]) == aval(flat[1].t))
 
 
 def _incremental_whole(n_eqns):
